@@ -94,6 +94,8 @@ pub struct GenCfg {
     pub yield_every: Vec<u16>,
     /// inputs are long (>= 1000 elements)
     pub long_inputs: bool,
+    /// scheduled mode: the source iterator's next() is a (revocable) yield point in half of the fine-grained schedules
+    pub src_yield_often: bool,
 }
 
 impl GenCfg {
@@ -120,6 +122,7 @@ impl GenCfg {
             force_fault: false,
             yield_every: vec![1],
             long_inputs: false,
+            src_yield_often: false,
         }
     }
     /// scheduled mode aimed at adaptive chunk growth: many workers, small minimum chunk sizes, a few hundred to a few
@@ -133,6 +136,7 @@ impl GenCfg {
         c.chunk = ChunkCfg::GrowingMin;
         c.pos = ParamPos::OnSource;
         c.yield_every = vec![1, 2, 8, 32];
+        c.src_yield_often = true;
         c.src = SrcClass::Deep;
         c.max_chain = 2;
         c.min_chain = 1;
@@ -441,7 +445,7 @@ fn term_strategy(classes: &[TermClass]) -> BoxedStrategy<Term> {
     proptest::strategy::Union::new(alts).boxed()
 }
 
-fn schedule_strategy(yield_every: Vec<u16>) -> BoxedStrategy<Schedule> {
+fn schedule_strategy(yield_every: Vec<u16>, src_often: bool) -> BoxedStrategy<Schedule> {
     (
         prop_oneof![
             3 => Just(Policy::Uniform),
@@ -477,7 +481,11 @@ fn schedule_strategy(yield_every: Vec<u16>) -> BoxedStrategy<Schedule> {
             (
                 proptest::sample::select(yield_every.clone()),
                 prop_oneof![6 => Just(0u8), 2 => Just(1u8), 1 => 2u8..=5],
-                prop_oneof![5 => Just(0u8), 1 => 1u8..=3, 1 => 4u8..=12],
+                if src_often {
+                    prop_oneof![2 => Just(0u8), 2 => 1u8..=3, 1 => 4u8..=12].boxed()
+                } else {
+                    prop_oneof![5 => Just(0u8), 1 => 1u8..=3, 1 => 4u8..=12].boxed()
+                },
             )
                 .prop_map(move |(yield_every, drop_yield, src_yield)| Schedule {
                     policy,
@@ -492,7 +500,7 @@ fn schedule_strategy(yield_every: Vec<u16>) -> BoxedStrategy<Schedule> {
         .boxed()
 }
 
-fn mode_strategy(cfg: ModeCfg, yield_every: Vec<u16>) -> BoxedStrategy<Mode> {
+fn mode_strategy(cfg: ModeCfg, yield_every: Vec<u16>, src_often: bool) -> BoxedStrategy<Mode> {
     match cfg {
         ModeCfg::Free => (
             any::<u32>(),
@@ -505,7 +513,7 @@ fn mode_strategy(cfg: ModeCfg, yield_every: Vec<u16>) -> BoxedStrategy<Mode> {
                 src_spin,
             })
             .boxed(),
-        ModeCfg::Sched => schedule_strategy(yield_every).prop_map(Mode::Sched).boxed(),
+        ModeCfg::Sched => schedule_strategy(yield_every, src_often).prop_map(Mode::Sched).boxed(),
     }
 }
 
@@ -665,7 +673,7 @@ pub fn case_strategy(cfg: &GenCfg) -> BoxedStrategy<Case> {
         chain,
         params,
         term_strategy(&cfg.terms),
-        mode_strategy(cfg.mode, cfg.yield_every.clone()),
+        mode_strategy(cfg.mode, cfg.yield_every.clone(), cfg.src_yield_often),
     )
         .prop_flat_map(move |(source, input, chain, params, term, mode)| {
             let n = chain.len();
